@@ -68,6 +68,16 @@ def strategy_(draw, tier):
         b.chain(name, draw(elements()))
     b.fix_majority()
     g = {"nodes": b.nodes, "links": b.links}
+    if draw(st.integers(0, 3)) == 0:
+        # a reference segment whose name looks like the name a tool might give a collapsed bubble or a counter
+        ref_nodes = [n for c in b.chroms for n in c["ref"]]
+        old = draw(st.sampled_from(ref_nodes))
+        new = draw(st.sampled_from(["%d", "b%d", "B%d", "bubble%d", "bubble_%d", "s%d", "n%d", "c%d"])) % draw(st.integers(0, 3))
+        if new not in g["nodes"]:
+            mp = {old: new}
+            g = gen_graph.rename_nodes(g, mp)
+            for c in b.chroms:
+                c["ref"] = [mp.get(n, n) for n in c["ref"]]
     # a graph of a sub-region keeps the original offsets: reference coordinates need not start at 0
     for c in b.chroms:
         off = draw(st.sampled_from([0, 0, 95, 9990, 99999995]))
